@@ -40,7 +40,14 @@ def gen_case(rng):
     if eo['interp_method'] != 'splrep':
         n = min(n, 150)
     x = gens.signal(rng, kind, n)
+    if rng.random() < .1 and np.ptp(x) > 0:
+        # an oscillation riding on a large constant offset (almost flat in relative terms, oscillatory all the same)
+        x = x + float(gens.pick(rng, [-1, 1])) * float(10 ** rng.uniform(2, 4)) * np.abs(x).max()
     io = gens.imf_opts(rng)
+    if io['stop_method'] != 'fixed' and rng.random() < .25:
+        io['max_iters'] = int(gens.pick(rng, [10, 30, 100]))     # a tight iteration budget: the call either raises or is complete
+    elif io['stop_method'] == 'fixed' and rng.random() < .1:
+        io['max_iters'] = int(gens.pick(rng, [50, 200]))         # heavy over-sifting: many components on short records
     xo = gens.ext_opts(rng)
     xp, _, tag = gens.present(rng, x, p_plain=.8)
     if tag == 'strided':
